@@ -112,9 +112,14 @@ def step (s : St) (t : List String) : St × String :=
     | some (items, []) =>
       ({ s with items := items },
         optBytesToHex (simpleHashFromByteSlices H items) ++ " " ++ optBytesToHex (simpleHashFromByteSlicesIterative H items)
-        ++ " " ++ (match simpleProofsFromByteSlices H items with
-                   | none => "panic:nilderef"
-                   | some (_, ps) => toString ps.length))
+        ++ " " ++ (
+          -- the model builds all n proofs (n·O(n) hashes); beyond 64 items only its length is reported
+          -- (`prove` exercises individual proofs of large trees)
+          if items.length ≤ 64 then
+            match simpleProofsFromByteSlices H items with
+            | none => "panic:nilderef"
+            | some (_, ps) => toString ps.length
+          else toString items.length))
     | _ => (s, "err:badop")
   | ["prove", i] =>
     match parseNat i with
